@@ -6,7 +6,9 @@ CONSTANTS
   MaxReads = 3
   OccSet = {TRUE, FALSE}
   BatchSet = {1, 2}
-  Kinds = {"waive", "stale", "equal", "future", "far"}
+  PathSet = {"async", "sync"}
+  MaxPauses = 2
+  Kinds = {"waive", "stale", "equal", "future", "far", "neg", "negbig"}
   Pols = {"leader", "none"}
   Mut = "none"
 CHECK_DEADLOCK FALSE
